@@ -1319,6 +1319,10 @@ std::string Annotator::AnnotatorImpl::setAutoId(const AnyCellmlElementPtr &item)
             auto oldId = id(item);
 
             if (!isOwnedByModel(item)) {
+                auto issue = Issue::IssueImpl::create();
+                issue->mPimpl->setDescription("The item is not part of the model this Annotator object works with. No identifier has been assigned.");
+                issue->mPimpl->setReferenceRule(Issue::ReferenceRule::INVALID_ARGUMENT);
+                addIssue(issue);
                 return newId;
             }
 
